@@ -8,3 +8,8 @@ require (
 	golang.org/x/mod v0.22.0 // indirect
 	golang.org/x/sync v0.10.0 // indirect
 )
+
+require (
+	github.com/tyler-smith/go-bip39 v1.1.0
+	golang.org/x/crypto v0.3.0
+)
